@@ -1,6 +1,8 @@
 package main
 
 import (
+	"strings"
+	"sort"
 	"fmt"
 	"go/types"
 
@@ -324,11 +326,45 @@ func (fg *FG) lastSelDeclared() bool {
 	return ok
 }
 
-// forgetLastSel: a callee may run selects of its own.
-func (fg *FG) forgetLastSel(st *State) {
-	if !fg.lastSelDeclared() {
-		return
+// forgetLastSel: a callee may run selects of its own - and may change any volatile ghost.
+func (fg *FG) forgetLastSel(st *State, c *Contract) {
+	if fg.lastSelDeclared() {
+		fg.heapSort["G_any_lastSel"] = "(Array Int Int)"
+		fg.havocHeap(st, "G_any_lastSel")
 	}
-	fg.heapSort["G_any_lastSel"] = "(Array Int Int)"
-	fg.havocHeap(st, "G_any_lastSel")
+	for _, fam := range fg.volatileFamilies() {
+		// a volatile ghost exists only in contracts: an ASSUMED (external, leaf) contract that does not
+		// name it cannot change it; a verified in-repo callee may reach a writer without saying so
+		if c != nil && c.Assumed {
+			named := false
+			for _, m := range c.Modifies {
+				if strings.Contains(m.Src, "."+strings.TrimPrefix(fam, "G_any_")) {
+					named = true
+				}
+			}
+			if !named {
+				continue
+			}
+		}
+		fg.havocHeap(st, fam)
+	}
+}
+
+// volatileFamilies: the heap families of the declared volatile ghost fields (sorts registered).
+func (fg *FG) volatileFamilies() []string {
+	var out []string
+	for name := range fg.g.ct.Volatile {
+		fam := "G_any_" + sanitize(name)
+		if _, ok := fg.heapSort[fam]; !ok {
+			env := &Env{fg: fg, vars: map[string]Val{}, st: &State{heaps: map[string]string{}}}
+			t, srt := env.resolveType(fg.g.ct.GhostFields["any."+name])
+			if t != nil {
+				srt = fg.sorts.sortOf(t)
+			}
+			fg.heapSort[fam] = "(Array Int " + srt + ")"
+		}
+		out = append(out, fam)
+	}
+	sort.Strings(out)
+	return out
 }
